@@ -1374,6 +1374,10 @@ func (w *worker) runResponse(rc RespCase) (vs []violation, outcome string) {
 	wire2, _, ex2 := render(rc2)
 
 	sc := netsim.NewScriptConn(segment(wire, headLen, rc.Deliver), netsim.EndEOF)
+	if rc.Framing != fClose11 && rc.Framing != fClose10 && rc2.Framing != fClose11 && rc2.Framing != fClose10 {
+		// a keep-alive peer stays silent behind a message whose end the framing tells: a client that reads on gets a time-out
+		sc.End = netsim.EndTimeout
+	}
 	if rc.Stall {
 		cut := headLen + (len(wire)-headLen)/2
 		sc = netsim.NewScriptConn([][]byte{append([]byte(nil), wire[:cut]...)}, netsim.EndTimeout)
